@@ -23,8 +23,12 @@ def _pkg_prefix() -> str:
 
 
 class Injector:
-    def __init__(self, k: int | None = None):
+    """k-th line event inside the package; with `target`, k-th line event inside frames of the function named `target`
+    (fault placement by phase: a short but state-changing function gets its share of kills however long the rest of the call is)."""
+
+    def __init__(self, k: int | None = None, target: str | None = None):
         self.k = k
+        self.target = target
         self.count = 0
         self.fired = False
         self.where = None
@@ -37,6 +41,8 @@ class Injector:
 
     def _local(self, frame, event, arg):
         if event == "line":
+            if self.target is not None and frame.f_code.co_name != self.target:
+                return self._local
             self.count += 1
             if self.k is not None and not self.fired and self.count == self.k:
                 self.fired = True
